@@ -32,14 +32,16 @@ MUTANTS = [
     ("split-status", "C06", "src/pomerol/TwoParticleGFContainer.cpp", "                if (!clearTerms) chi.parts[p]->Status = TwoParticleGFPart::Computed; // the terms have just been received\n", ""),
     ("h-bcast-root", "C06", "src/pomerol/Hamiltonian.cpp", "boost::mpi::broadcast(comm, parts[p]->Eigenvalues.data(), parts[p]->H.rows(), job_map[p]);", "boost::mpi::broadcast(comm, parts[p]->Eigenvalues.data(), parts[p]->H.rows(), (job_map[p]+(p==1))%comm.size());"),
     ("sym-sz-throws", "C07", "src/pomerol/Symmetrizer.cpp", "if (2*SpinUpIndices.size() == IndexSize)", "if (true)"),
-    ("mapsto-last", "C07", "src/pomerol/FieldOperator.cpp", "return (found)?S.getBlockNumber(result.begin()->first):ERROR_BLOCK_NUMBER;", "return (found)?S.getBlockNumber(result.rbegin()->first):ERROR_BLOCK_NUMBER;"),
+    # ("mapsto-last": result.begin() -> result.rbegin() is an EQUIVALENT mutant: c, c^+ and c^+c map a Fock state to at most one Fock state, the map has one entry)
+    ("mapsto-first-only", "C07", "src/pomerol/FieldOperator.cpp", "state_it!=states.end() && !found; state_it++) {\n        result = O->actRight(*state_it);", "state_it!=states.end() && !found && state_it==states.begin(); state_it++) {\n        result = O->actRight(*state_it);"),
     ("inner-state-block0", "C07", "src/pomerol/StatesClassification.cpp", "    BlockNumber block = this->getBlockNumber(state);\n    for (InnerQuantumState n=0;", "    BlockNumber block = (state.count()==2) ? BlockNumber(0) : this->getBlockNumber(state);\n    for (InnerQuantumState n=0;"),
-    ("quadratic-bimap", "C08", "src/pomerol/Susceptibility.cpp", "if(AleftInt <= BrightInt) Aiter++;", "if(AleftInt < BrightInt) Aiter++;"),
+    # ("quadratic-bimap": `AleftInt <= BrightInt` -> `<` in Susceptibility::prepare is an EQUIVALENT mutant: both maps are bijections walked in
+    #  ascending order, on equal keys either iterator may advance first and the other follows in the next round)
     ("dm-no-ground", "C09", "src/pomerol/DensityMatrixPart.cpp", "exp(-beta*(hpart.getEigenValue(s)-GroundEnergy))", "exp(-beta*(hpart.getEigenValue(s)))"),
     ("dm-occ-index", "C09", "src/pomerol/DensityMatrixPart.cpp", "S.getFockState(hpart.getBlockNumber(),fi).test(i)*", "S.getFockState(hpart.getBlockNumber(),fi).test(i>2?0:i)*"),
     ("ea-offdiag-block", "C09", "src/pomerol/EnsembleAverage.cpp", "result_part += Amatrix.coeff(index1, index1) * DMpart.getWeight(index1);", "result_part += Amatrix.coeff(index1, index1) * DMpart.getWeight(Amatrix.outerSize()-1-index1);"),
     ("fop-sign", "C10", "src/pomerol/FieldOperatorPart.cpp", "RightMat(k,m) = RealType(sign) * HFrom.getMatrixElement(k,m);", "RightMat(k,m) = RealType(sign*sign) * HFrom.getMatrixElement(k,m);"),
-    ("fop-container-transpose", "C10", "src/pomerol/FieldOperatorContainer.cpp", "c.getPartFromRightIndex(cdag_map_it->second).elementsRowMajor = cdag.getPartFromRightIndex(cdag_map_it->first).getColMajorValue().adjoint();", "c.getPartFromRightIndex(cdag_map_it->second).elementsRowMajor = cdag.getPartFromRightIndex(cdag_map_it->first).getColMajorValue().adjoint()*(cdag_map_it->first==2?-1.0:1.0);"),
+    ("fop-container-sign", "C10", "src/pomerol/FieldOperatorContainer.cpp", "                c.getPartFromRightIndex(cdag_map_it->second).Status = ComputableObject::Computed;", "                if (cdag_map_it->first==2) { c.getPartFromRightIndex(cdag_map_it->second).elementsRowMajor *= -1.0; c.getPartFromRightIndex(cdag_map_it->second).elementsColMajor *= -1.0; }\n                c.getPartFromRightIndex(cdag_map_it->second).Status = ComputableObject::Computed;"),
     ("cplx-leftmat-conj", "C10", "src/pomerol/FieldOperatorPart.cpp", "LeftMat(n,k) = std::conj(HTo.getMatrixElement(l,n));", "LeftMat(n,k) = HTo.getMatrixElement(l,n);"),
     ("cplx-container-transpose", "C10", "src/pomerol/FieldOperatorContainer.cpp", "cdag.getPartFromRightIndex(cdag_map_it->first).getColMajorValue().adjoint();", "cdag.getPartFromRightIndex(cdag_map_it->first).getColMajorValue().transpose();"),
     ("cplx-hopping-conj", "C04", "src/pomerol/LatticePresets.cpp", "Hopping(Label2, Label1, conj(t), Orbital2, Orbital1, Spin2, Spin1)); // Hermite conjugate", "Hopping(Label2, Label1, t, Orbital2, Orbital1, Spin2, Spin1)); // Hermite conjugate"),
@@ -52,7 +54,10 @@ MUTANTS = [
     ("fill-stale-nt", "C13", "include/pomerol/IndexContainer4.h", "    NonTrivialElements.clear();\n", ""),
     ("sus-zero-pole", "C14", "src/pomerol/SusceptibilityPart.cpp", "ZeroPoleWeight += Ainner.value() * Binner.value() * DMpartOuter.getWeight(index1);", "ZeroPoleWeight += Ainner.value() * Binner.value() * DMpartInner.getWeight(A_index2) * DMpartOuter.getWeight(index1);"),
     ("sus-subtract-all-n", "C14", "include/pomerol/Susceptibility.h", "if( abs(z) < 1e-15 )  Value -= ave_A * ave_B * beta;  // only for n=0", "Value -= ave_A * ave_B * beta;  // only for n=0"),
-    ("store-offset", "C15", "include/pomerol/MatsubaraContainers.h", "(BosonicIndex < 0 ? 0 : BosonicIndex+1) -NumberOfMatsubaras;", "(BosonicIndex < 0 ? 0 : BosonicIndex) -NumberOfMatsubaras;"),
+    # ("store-offset": shifting FermionicIndexOffset by one PRESERVES the property: fill and lookup use the same offset and the lookup is
+    #  bounds-checked with a fall-back to the source, so every triple still returns the direct value -- only the cached window moves. C15
+    #  rightly stays quiet; kept here as a documented non-violation)
+    ("store-no-fallback", "C15", "include/pomerol/MatsubaraContainers.h", "if(NuIndexM >= 0 && NuIndexM < Values[BosonicIndexV].rows() &&\n           NupIndexM >= 0 && NupIndexM < Values[BosonicIndexV].cols())", "if(NuIndexM >= 0 && NuIndexM <= Values[BosonicIndexV].rows() &&\n           NupIndexM >= 0 && NupIndexM < Values[BosonicIndexV].cols())"),
     ("store-swap", "C15", "include/pomerol/MatsubaraContainers.h", "return Values[BosonicIndexV](NuIndexM,NupIndexM);", "return Values[BosonicIndexV](NupIndexM,NuIndexM);"),
     ("disp-finish-early", "C16", "src/mpi_dispatcher/mpi_dispatcher.cpp", "if (JobStack.empty() && WorkerStack.size() >= Nprocs) {", "if (JobStack.empty() && WorkerStack.size() > 0) {"),
     ("disp-map-late", "C16", "src/mpi_dispatcher/mpi_dispatcher.cpp", "    DispatchMap[job]=worker;\n", "    DispatchMap[job]=(job==2 && Nprocs>2)?worker_pool[0]:worker;\n"),
@@ -61,6 +66,14 @@ MUTANTS = [
     ("index-shift", "C18", "src/pomerol/IndexClassification.cpp", "if (it!=InfoToIndices.end()) return (*it).second;", "if (it!=InfoToIndices.end()) return ((*it).second==3 && IndexSize>5) ? 4 : (*it).second;"),
     ("trunc-and", "C19", "src/pomerol/GreensFunction.cpp", "if ( DM.isRetained(Cleft) || DM.isRetained(Cright) )", "if ( DM.isRetained(Cleft) && DM.isRetained(Cright) )"),
     ("trunc-zpart", "C19", "src/pomerol/DensityMatrixPart.cpp", "        if ( weights(s) > Tolerance ){", "        if ( weights(s) > 10*Tolerance ){"),
+    # idempotence guards of the life-cycle (spec/Workflow.tla): only repeated calls show these
+    ("gf-prepare-noguard", "C01", "src/pomerol/GreensFunction.cpp", "    if(Status>=Prepared) return;\n", "\n"),
+    ("chi-prepare-noguard", "C02", "src/pomerol/TwoParticleGF.cpp", "    if(Status>=Prepared) return;\n", "\n"),
+    ("dm-prepare-noguard", "C09", "src/pomerol/DensityMatrix.cpp", "    if (Status >= Prepared) return;\n", "\n"),
+    ("ea-prepare-noguard", "C09", "src/pomerol/EnsembleAverage.cpp", "    if(Status>=Prepared) return;\n", "\n"),
+    ("cx-prepare-noguard", "C10", "src/pomerol/FieldOperator.cpp", "void CreationOperator::prepare(void)\n{\n    if (Status >= Prepared) return;\n", "void CreationOperator::prepare(void)\n{\n"),
+    ("sus-no-autoprepare", "C14", "src/pomerol/Susceptibility.cpp", "    if(Status<Prepared) prepare();\n", "\n"),
+    ("h-prepare-noguard", "C03", "src/pomerol/Hamiltonian.cpp", "    if (Status >= Prepared) return;\n", "\n"),
     ("lattice-orbital-check", "C20", "src/pomerol/Lattice.cpp", "if (T->Orbitals[i]>=Sites[T->SiteLabels[i]]->OrbitalSize)", "if (T->Orbitals[i]>Sites[T->SiteLabels[i]]->OrbitalSize)"),
     ("lattice-zero-filter", "C20", "src/pomerol/Lattice.cpp", "if ( std::abs(T->Value) ) Terms->addTerm(T);", "Terms->addTerm(T);"),
     ("getsite-inverted", "C20", "src/pomerol/Lattice.cpp", "if (it1==Sites.end()) throw (exWrongLabel());", "if (it1!=Sites.end()) throw (exWrongLabel());"),
